@@ -337,7 +337,7 @@ static orc_bool ORC_TARGET_XSAVE check_xcr0_ymm()
 #endif
 
 static void
-orc_x86_cpuid_handle_standard_flags (void)
+orc_x86_cpuid_handle_standard_flags (orc_uint32 level)
 {
   orc_uint32 eax, ebx, ecx, edx;
 
@@ -372,9 +372,13 @@ orc_x86_cpuid_handle_standard_flags (void)
   orc_bool osxsave_enabled = (ecx & xsave_bits) == xsave_bits;
   const orc_bool avx_instructions_supported = (ecx & (1 << 28)) != 0;
 
-  get_cpuid (0x00000007, &eax, &ebx, &ecx, &edx);
-
-  const orc_bool avx2_instructions_supported = (ebx & (1 << 5)) != 0;
+  /* a leaf above the highest one the CPU implements returns the data of that
+   * highest leaf (e.g. the cache descriptors of leaf 2), not zeroes */
+  orc_bool avx2_instructions_supported = FALSE;
+  if (level >= 7) {
+    get_cpuid (0x00000007, &eax, &ebx, &ecx, &edx);
+    avx2_instructions_supported = (ebx & (1 << 5)) != 0;
+  }
 
   // If xgetbv is available, validate XMM and YMM state available
   if (osxsave_enabled) {
@@ -420,7 +424,7 @@ static void
 orc_sse_detect_cpuid_generic (orc_uint32 level)
 {
   if (level >= 1) {
-    orc_x86_cpuid_handle_standard_flags ();
+    orc_x86_cpuid_handle_standard_flags (level);
     orc_x86_cpuid_handle_family_model_stepping ();
   }
 }
@@ -432,7 +436,7 @@ orc_sse_detect_cpuid_intel (orc_uint32 level)
 
   if (level >= 1) {
 
-    orc_x86_cpuid_handle_standard_flags ();
+    orc_x86_cpuid_handle_standard_flags (level);
     orc_x86_cpuid_handle_family_model_stepping ();
 
     orc_x86_microarchitecture = ORC_X86_UNKNOWN;
@@ -549,7 +553,7 @@ orc_sse_detect_cpuid_amd (orc_uint32 level)
   orc_uint32 edx = 0;
 
   if (level >= 1) {
-    orc_x86_cpuid_handle_standard_flags ();
+    orc_x86_cpuid_handle_standard_flags (level);
     orc_x86_cpuid_handle_family_model_stepping ();
 
     orc_x86_microarchitecture = ORC_X86_UNKNOWN;
